@@ -25,17 +25,21 @@ macro_rules! make_shared {
         impl $shared_ty {
             pub fn read(&self) -> parking_lot::RwLockReadGuard<'_, $inner_ty> {
                 #[cfg(feature = "verif")]
-                $crate::verif::sched::block_until($crate::verif::sched::site::PAGER_READ, || {
-                    !self.0.is_locked_exclusive()
-                });
+                $crate::verif::sched::block_until_on(
+                    $crate::verif::sched::site::PAGER_READ,
+                    std::sync::Arc::as_ptr(&self.0) as usize,
+                    || !self.0.is_locked_exclusive(),
+                );
                 self.0.read()
             }
 
             pub fn write(&self) -> parking_lot::RwLockWriteGuard<'_, $inner_ty> {
                 #[cfg(feature = "verif")]
-                $crate::verif::sched::block_until($crate::verif::sched::site::PAGER_WRITE, || {
-                    !self.0.is_locked()
-                });
+                $crate::verif::sched::block_until_on(
+                    $crate::verif::sched::site::PAGER_WRITE,
+                    std::sync::Arc::as_ptr(&self.0) as usize,
+                    || !self.0.is_locked(),
+                );
                 self.0.write()
             }
 
